@@ -23,14 +23,14 @@ REQUIRED = {
     "noise_invariance_samples": 300, "tanh_extreme_outputs": 50,
     "env_actions_checked": 200, "cem_candidates_checked": 100,
 }
-TIMEOUT = {"quick": 1500, "thorough": 3400}
+TIMEOUT = {"quick": 1500, "thorough": 7000}
 ASSUMPTIONS = ["bounds check exact for clipped samplers, <= 4 ulp of "
                "max(|low|,|high|) for tanh outputs and CEM candidates"]
 
 
 def gen_cases(tier, seed):
     rng = np.random.default_rng(seed + 1010)
-    k = 1 if tier == "quick" else 10
+    k = 1 if tier == "quick" else 30
     cases = []
     for i in range(16 * k):
         cases.append(dict(kind="samplers", seed=int(rng.integers(1 << 30)), cost=3))
